@@ -46,10 +46,10 @@ type Req struct {
 
 // Hit is what a handler observed.
 type Hit struct {
-	Kind    string      `json:"kind"` // "route", "noroute", "nomethod", "options", "redirect"
-	Pattern string      `json:"pattern"`
-	Params  []ref.Param `json:"params"`
-	Scope   fox.HandlerScope
+	Kind     string      `json:"kind"` // "route", "noroute", "nomethod", "options", "redirect"
+	Pattern  string      `json:"pattern"`
+	Params   []ref.Param `json:"params"`
+	Scope    fox.HandlerScope
 	RouteNil bool
 }
 
@@ -278,10 +278,10 @@ func DoReverse(l Looker, q Req) Obs {
 
 // Served is what ServeHTTP did.
 type Served struct {
-	Code     int
-	Header   http.Header
-	Hits     []Hit
-	Body     string
+	Code   int
+	Header http.Header
+	Hits   []Hit
+	Body   string
 }
 
 type recWriter struct {
